@@ -112,7 +112,11 @@ func doMatchIn(expression *grammar.MatchExpression, value reflect.Value) (bool, 
 
 	switch kind := value.Kind(); kind {
 	case reflect.Map:
-		found := value.MapIndex(reflect.ValueOf(matchValue))
+		keyType := value.Type().Key()
+		if keyType.Kind() != reflect.String {
+			return false, fmt.Errorf("Cannot perform in/contains operations on a map with %s keys for selector: %q", keyType.Kind(), expression.Selector)
+		}
+		found := value.MapIndex(reflect.ValueOf(matchValue).Convert(keyType))
 		return found.IsValid(), nil
 
 	case reflect.Slice, reflect.Array:
